@@ -601,3 +601,22 @@ pub proof fn lemma_sc_reachable(w0: World, steps: Seq<ScOp>, a: Address)
     lemma_sc_history(w0, steps);
     lemma_inv_bal_nonneg(sc_run(w0, steps), a);
 }
+
+// =================================================================================================
+// 4. the bridge to the code (used by specs/vault_c01/contracts.vspec): a returning call of an entry point IS a step
+//    of the history (`*.is_history_step`, checked on the function body), hence C01's own words hold for the call
+// =================================================================================================
+/// C01 for one returning call: invariant kept, event replay kept, supply moved by exactly `dsupply`
+pub open spec fn sc_c01(w: World, w2: World, dsupply: int) -> bool {
+    inv(w) && inv_ev_vault(w) ==> inv(w2) && inv_ev_vault(w2) && supply(w2) == supply(w) + dsupply
+}
+pub open spec fn sc_is_step(w: World, w2: World, op: ScOp) -> bool { sc_guard(w, op) && w2 =~~= sc_post(w, op) }
+pub proof fn lemma_sc_call(w: World, w2: World, op: ScOp)
+    requires sc_is_step(w, w2, op),
+    ensures sc_c01(w, w2, sc_supply_delta(op)),
+{
+    if inv(w) && inv_ev_vault(w) {
+        lemma_sc_step(w, op);
+        assert(w2 == sc_post(w, op));
+    }
+}
